@@ -31,6 +31,8 @@ package main
 import (
 	"fmt"
 	"math/big"
+	"os"
+	"sort"
 	"strings"
 
 	"golang.org/x/tools/go/ssa"
@@ -191,6 +193,7 @@ func checkC02(ctx *Ctx, r *Report, tier string) {
 
 	checkRevolve(ctx, r)
 	checkInverses(ctx, r)
+	checkVoxelLattice(ctx, r)
 	checkFolds(ctx, r)
 	checkSawTooth(ctx, r)
 	checkCacheIdentity(ctx, r)
@@ -952,4 +955,160 @@ func screwSpec(ctx *Ctx, r *Report, rule string) {
 		wantT := Call("math.Max", clip, opEval("thread", x0, Add(rr, Mul(pZ, Call("math.Atan", A("taper"))))))
 		r.check(rule, "Screw3D|taper-shifts-the-radius-linearly-in-z", fn.Pos(), equalRat(tap, wantT), "tapered: radius argument r + z·atan(taper); composite = "+shortKey(tap.Key(), 300))
 	}
+}
+
+// ---------------------------------------------------------------- M8: voxel wrapper
+
+// checkVoxelLattice: NewVoxelSDF3 samples the wrapped shape at P(I) for every lattice index I
+// and stores the value under I; VoxelSDF3.Evaluate interpolates between the stored values of
+// the cell it computes from the query point. The two sides have to agree on the lattice: at
+// p = P(I) the evaluation must take cell I with zero offsets, i.e. return exactly the value
+// stored for I (weight 1) and ignore the seven other corners (weight 0). Decided on the
+// closed forms: the constructor's sample position and stored fields are substituted into the
+// closed form of Evaluate, int(float(I)) is folded to I, and the eight corner weights are
+// compared with (1,0,...,0) as rational identities.
+func checkVoxelLattice(ctx *Ctx, r *Report) {
+	ctor := ctx.ssaFunc("sdf", "NewVoxelSDF3")
+	meth := ctx.ssaFunc("sdf", "(*VoxelSDF3).Evaluate")
+	key := "NewVoxelSDF3|samples-and-lookups-share-one-lattice"
+	if ctor == nil || meth == nil {
+		r.undecided("M8", key, 0, "constructor or Evaluate not found")
+		return
+	}
+	ev := newEval(ctx)
+	res, st := ev.evalRoot(ctor)
+	obj, ok := resultObject(res, st)
+	if !ok || ev.Exceeded {
+		r.undecided("M8", key, ctor.Pos(), "constructor result is not a fresh object in closed form")
+		return
+	}
+	fields := map[string]*Term{}
+	leafTerms("", obj, fields)
+	// the sample stored under index I
+	var idx []*Term
+	var pos []*Term
+	for _, e := range ev.Events {
+		if e.Callee != "mapupdate" || len(e.Args) < 3 {
+			continue
+		}
+		k, _ := e.Args[1].(*Agg)
+		v, _ := e.Args[2].(*Term)
+		if k == nil || v == nil || v.Op != "call" || !strings.HasSuffix(v.S, ".Evaluate") || len(v.Args) != 1 || v.Args[0].Op != "agg" {
+			continue
+		}
+		idx, pos = nil, nil
+		for _, x := range k.Elems {
+			if t, ok := x.(*Term); ok && t.Op == "a" {
+				idx = append(idx, t)
+			}
+		}
+		pos = v.Args[0].Args
+	}
+	if len(idx) != 3 || len(pos) != 3 {
+		r.check("M8", key, ctor.Pos(), false, "no store of operand.Evaluate(P(I)) under the lattice index I found in the constructor")
+		return
+	}
+	// the trilinear form over symbolic offsets is a large polynomial: lift the size cap for it
+	savedCap := termCap
+	termCap = 400000
+	defer func() { termCap = savedCap }()
+	ev2 := newEval(ctx)
+	res2, _ := ev2.evalRoot(meth)
+	c, _ := res2.(*Term)
+	if c == nil || ev2.Exceeded {
+		r.undecided("M8", key, meth.Pos(), "Evaluate is not a closed form")
+		return
+	}
+	recv := meth.Params[0].Name()
+	pt := meth.Params[1].Name()
+	// the stored fields are named (N.X for numVoxels.X, ...) wherever they occur in the sample
+	// position, so that the substituted terms stay small
+	abbrev := map[string]*Term{}
+	sub := map[string]*Term{}
+	for f, t := range fields {
+		if t.Op == "a" || t.IsConst() {
+			sub[recv+f] = t
+			continue
+		}
+		nm := A("field" + f)
+		abbrev[t.Key()] = nm
+		sub[recv+f] = nm // ".numVoxels.X" -> field.numVoxels.X
+	}
+	for i := range pos {
+		pos[i] = substKeys(pos[i], abbrev)
+	}
+	for i, ax := range []string{"X", "Y", "Z"} {
+		sub[pt+"."+ax] = pos[i]
+	}
+	c1 := substAtoms(c, sub)
+	// int(float(I)) = I
+	unfolded := 0
+	c1 = rebuild(c1, func(x *Term) *Term {
+		if x.Op == "conv" && strings.HasPrefix(x.S, "int") {
+			for _, k := range idx {
+				if equalRat(x.Args[0], Conv("float64", k)) {
+					return k
+				}
+			}
+			hasIdx := false
+			as := map[string]bool{}
+			x.Atoms(as)
+			for _, k := range idx {
+				if as[k.S] {
+					hasIdx = true
+				}
+			}
+			if hasIdx {
+				unfolded++
+			}
+			if os.Getenv("VERIF_DEBUG") != "" {
+				fmt.Println("DEBUG conv:int arg", hasIdx, shortKey(x.Args[0].Key(), 400))
+			}
+		}
+		return nil
+	})
+	// the eight stored corner values are the lookup atoms
+	var corners []string
+	as := map[string]bool{}
+	c.Atoms(as)
+	for a := range as {
+		if strings.HasPrefix(a, "lookup(") {
+			corners = append(corners, a)
+		}
+	}
+	sort.Strings(corners)
+	own := ""
+	for _, a := range corners {
+		if !strings.Contains(a, "+(1,") {
+			own = a
+		}
+	}
+	okAll := len(corners) == 8 && own != "" && unfolded == 0
+	detail := fmt.Sprintf("%d corner values, %d index computations that do not reduce to I at the sample positions;", len(corners), unfolded)
+	if okAll {
+		for _, a := range corners {
+			m := map[string]*Term{}
+			for _, b := range corners {
+				if a == b {
+					m[b] = K(1)
+				} else {
+					m[b] = K(0)
+				}
+			}
+			w := substAtoms(c1, m)
+			want := K(0)
+			if a == own {
+				want = K(1)
+			}
+			if os.Getenv("VERIF_DEBUG") != "" {
+				fmt.Println("DEBUG weight", a == own, shortKey(w.Key(), 700))
+			}
+			if !equalRat(w, want) {
+				okAll = false
+				detail += fmt.Sprintf(" weight of %s at a sample position is not %s;", shortKey(a, 60), want.Key())
+			}
+		}
+	}
+	r.check("M8", key, ctor.Pos(), okAll, "at every sample position P(I) Evaluate returns the value stored for I; "+detail)
+	r.floor("M8", 1)
 }
